@@ -350,6 +350,12 @@ func isoChild(st *isoStage, ctx *Ctx, from, to int) {
 			b, _ := json.Marshal(out)
 			fmt.Fprintf(w, "DONE %d %s\n", i, b)
 			w.Flush()
+			if out.Viol != nil {
+				// after any fault (in particular an abandoned, still running library call) the
+				// child is replaced by a fresh one, so that the leftovers cannot take a later,
+				// innocent case down with them
+				os.Exit(0)
+			}
 		case <-time.After(25 * time.Second):
 			fmt.Fprintf(w, "HANG %d\n", i)
 			w.Flush()
@@ -382,6 +388,10 @@ func registerIso(st *isoStage, rule string, quick, thorough int) {
 				defer wg.Done()
 				cur := from
 				for cur < to && !col.Full() {
+					if ctx.MaxSec > 0 && time.Since(ctx.Start).Seconds() > ctx.MaxSec {
+						col.AddN("cases_not_started_time_budget", to-cur)
+						break
+					}
 					cmd := exec.Command(self, st.name+"-child", "-seed", fmt.Sprint(ctx.Seed), "-tier", ctx.Tier, "-oracle", ctx.Oracle, "-from", fmt.Sprint(cur), "-to", fmt.Sprint(to))
 					outp, _ := cmd.StdoutPipe()
 					cmd.Start()
@@ -426,6 +436,12 @@ func registerIso(st *isoStage, rule string, quick, thorough int) {
 								}
 								cur = idx + 1
 								started = -1
+								if ctx.MaxSec > 0 && time.Since(ctx.Start).Seconds() > ctx.MaxSec {
+									col.AddN("cases_not_started_time_budget", to-cur)
+									cur = to
+									cmd.Process.Kill()
+									break loop
+								}
 							}
 						case <-time.After(60 * time.Second):
 							dead = "timeout (child unresponsive)"
@@ -440,7 +456,47 @@ func registerIso(st *isoStage, rule string, quick, thorough int) {
 							dead = "process died (fatal error / out of memory)"
 						}
 						col.Eval(fmt.Sprint("dead", started), true, "killed")
-						if v := st.onDeath(ctx, started, dead); v != nil && !col.KindFull(v.Kind) {
+						// a child can also die of memory pressure caused by its neighbours: the case is
+						// re-run alone in a fresh child and reported only if it dies (or hangs) again
+						confirmed := false
+						var again caseOut
+						{
+							c2 := exec.Command(self, st.name+"-child", "-seed", fmt.Sprint(ctx.Seed), "-tier", ctx.Tier, "-oracle", ctx.Oracle, "-from", fmt.Sprint(started), "-to", fmt.Sprint(started+1))
+							out2, _ := c2.StdoutPipe()
+							c2.Start()
+							doneCh := make(chan bool, 1)
+							go func() {
+								sc2 := bufio.NewScanner(out2)
+								sc2.Buffer(make([]byte, 1<<24), 1<<24)
+								okDone := false
+								for sc2.Scan() {
+									ln := sc2.Text()
+									if strings.HasPrefix(ln, "DONE ") {
+										okDone = true
+										json.Unmarshal([]byte(ln[strings.Index(ln[5:], " ")+6:]), &again)
+									}
+									if strings.HasPrefix(ln, "HANG ") {
+										okDone = false
+										break
+									}
+								}
+								doneCh <- okDone
+							}()
+							select {
+							case okDone := <-doneCh:
+								confirmed = !okDone
+							case <-time.After(90 * time.Second):
+								confirmed = true
+							}
+							c2.Process.Kill()
+							c2.Wait()
+						}
+						if !confirmed {
+							col.AddN("child_deaths_not_reproduced_alone", 1)
+							if again.Viol != nil && !col.KindFull(again.Viol.Kind) {
+								col.Violate(*again.Viol)
+							}
+						} else if v := st.onDeath(ctx, started, dead); v != nil && !col.KindFull(v.Kind) {
 							col.Violate(*v)
 						}
 						cur = started + 1
